@@ -29,7 +29,8 @@ from cflib.crazyflie.toc import Toc, TocFetcher, GET_TOC_INFO, GET_TOC_ELEMENT
 from cflib.crazyflie.log import Log, LogTocElement
 from cflib.crazyflie.param import Param, ParamTocElement, _ExtendedTypeFetcher
 
-FUNCTIONS = ['cflib.crazyflie.toc:TocFetcher.start', 'cflib.crazyflie.toc:TocFetcher._new_packet_cb',
+FUNCTIONS = ['cflib.crazyflie.platformservice:PlatformService._crt_service_callback', 'cflib.crazyflie.platformservice:PlatformService._platform_callback',
+             'cflib.crazyflie.toc:TocFetcher.start', 'cflib.crazyflie.toc:TocFetcher._new_packet_cb',
              'cflib.crazyflie.toc:TocFetcher._request_toc_element', 'cflib.crazyflie.toc:TocFetcher._toc_fetch_finished',
              'cflib.crazyflie.toc:Toc', 'cflib.crazyflie.log:LogTocElement.__init__',
              'cflib.crazyflie.log:LogTocElement.get_cstring_from_id', 'cflib.crazyflie.log:LogTocElement.get_unpack_string_from_id',
@@ -571,7 +572,50 @@ def h_exttype(sym):
 
 
 _GEN = (('v1', False), ('v2', True))
+def h_generation(sym):
+    """Which protocol generation the table download will use is what the device announced, regardless of duplicated replies:
+    after the device has told its protocol version, a duplicate of an earlier reply of the negotiation (which only repeats what the
+    device has said already) leaves the negotiated version alone, and the connection sequence continues exactly once."""
+    from vf.env.base import MiniCF
+    from cflib.crazyflie.platformservice import PlatformService
+    cf = MiniCF(0)
+    ps = PlatformService.__new__(PlatformService)
+    ps._cf = cf
+    ps._protocolVersion = -1
+    ps._callback = None
+    ver = sym.int('device_version', 0, 255)
+    legacy = True if sym.bool('legacy_device') else False
+    cont = []
+    ps.fetch_platform_informations(lambda: cont.append(ps.get_protocol_version()))
+    assert len(cf.sent) == 1 and cf.sent[0].port == 15 and cf.sent[0].channel == 1, 'negotiation starts with the link-service source request'
+    ls_reply = packet(15, 1, list(b'xxxxxxxxxxxxxxxxxxxx') if legacy else list(b'Bitcraze Crazyflie'))
+    v_reply = packet(13, 1, [0, ver])
+    ps._crt_service_callback(ls_reply)
+    if legacy:
+        assert cont == [-1] and ps.get_protocol_version() == -1, 'a device without the magic string is a legacy device'
+        want = -1
+        sym.goal('legacy')
+    else:
+        assert cont == [] and len(cf.sent) == 2 and cf.sent[1].port == 13, 'version request expected'
+        ps._platform_callback(v_reply)
+        assert cont == [ver] and ps.get_protocol_version() == ver, 'negotiated version is the one the device announced'
+        want = ver
+        sym.goal('versioned')
+    for k in range(sym.B['dups']):
+        which = sym.choice(f'dup{k}', 2 if not legacy else 1)
+        if which == 0:
+            ps._crt_service_callback(ls_reply)
+        else:
+            ps._platform_callback(v_reply)
+        assert ps.get_protocol_version() == want, 'a duplicated negotiation reply changed the negotiated protocol version'
+        assert cont == [want], 'the connection sequence was continued more than once'
+        sym.goal('duplicate-handled')
+
+
 HARNESSES = [
+    Harness('generation[duplicated replies]', h_generation, quick=dict(dups=2), thorough=dict(dups=3), timeout=(120, 300),
+            goals=('legacy', 'versioned', 'duplicate-handled')),
+] + [
     Harness(f'step-item[{k},{g}]', h_step_item, quick=dict(kind=k, v2=v, pre=2, names=3), thorough=dict(kind=k, v2=v, pre=3, names=3), timeout=(400, 1800),
             goals=('ignored', 'stored', 'next-requested', 'finished') + (('crossed-255',) if v else ()))
     for k in ('log', 'param') for g, v in _GEN
